@@ -158,6 +158,67 @@ theorem bounded_value_is_first {α : Type} (hist : List (List (κ × α))) (k : 
     | nil => rfl
     | cons w vs ih => simpa using ih
 
+/-! entries of a `BoundedValue` keyed singleton are emitted exactly once -/
+
+def keysOf {β : Type} (m : List (κ × β)) : List κ := m.map (fun kv => kv.1)
+
+theorem aux_upsert_keys {β : Type} (m : List (κ × β)) (k : κ) (g : Option β → β) :
+    keysOf (upsert m k g) = if k ∈ keysOf m then keysOf m else keysOf m ++ [k] := by
+  induction m with
+  | nil => simp [upsert, keysOf]
+  | cons e rest ih =>
+    obtain ⟨k0, b⟩ := e
+    by_cases h : k0 == k
+    · have e0 : k0 = k := eq_of_beq h
+      subst e0; simp [upsert, keysOf]
+    · have ne : ¬ k = k0 := fun e => h (by subst e; exact beq_self_eq_true _)
+      have ih' := ih
+      simp only [keysOf] at ih' ⊢
+      simp only [upsert, h, Bool.false_eq_true, if_false, List.map_cons, ih', List.mem_cons, ne, false_or]
+      split <;> simp_all
+
+theorem aux_first_keys {α : Type} (b : List (κ × α)) (m : List (κ × α)) (hn : (keysOf m).Nodup) :
+    ∃ ext, keysOf (firstKeyedFrom m b) = keysOf m ++ ext ∧ (keysOf m ++ ext).Nodup := by
+  induction b generalizing m with
+  | nil => exact ⟨[], by simp [firstKeyedFrom], by simpa using hn⟩
+  | cons kv rest ih =>
+    have hk := aux_upsert_keys m kv.1 (fun o => o.getD kv.2)
+    have hn' : (keysOf (upsert m kv.1 (fun o => o.getD kv.2))).Nodup := by
+      rw [hk]; split
+      · exact hn
+      · rename_i hmem
+        rw [List.nodup_append]
+        refine ⟨hn, by simp, ?_⟩
+        intro a ha b hb
+        rw [List.mem_singleton] at hb; subst hb
+        intro e; subst e; exact hmem ha
+    obtain ⟨ext, h1, h2⟩ := ih (upsert m kv.1 (fun o => o.getD kv.2)) hn'
+    have e : firstKeyedFrom m (kv :: rest) =
+        firstKeyedFrom (upsert m kv.1 (fun o => o.getD kv.2)) rest := rfl
+    rw [e, h1, hk]
+    split
+    · rename_i hmem
+      rw [hk, if_pos hmem] at h2
+      exact ⟨ext, rfl, h2⟩
+    · rename_i hmem
+      rw [hk, if_neg hmem] at h2
+      exact ⟨kv.1 :: ext, by simp, by simpa using h2⟩
+
+/-- the entries a top-level per-key `first()` emits during a tick have fresh, pairwise distinct
+keys: an entry of a `BoundedValue` keyed singleton is emitted exactly once -/
+theorem first_entries_emitted_once {α : Type} (m b : List (κ × α)) (hn : (keysOf m).Nodup) :
+    (keysOf (firstEmitted m b)).Nodup ∧ ∀ k ∈ keysOf (firstEmitted m b), k ∉ keysOf m := by
+  obtain ⟨ext, h1, h2⟩ := aux_first_keys b m hn
+  have e : keysOf (firstEmitted m b) = ext := by
+    have : keysOf (firstEmitted m b) = (keysOf (firstKeyedFrom m b)).drop m.length := by
+      simp [keysOf, firstEmitted, List.map_drop]
+    rw [this, h1]
+    have hl : m.length = (keysOf m).length := by simp [keysOf]
+    rw [hl, List.drop_left]
+  rw [e]
+  rw [List.nodup_append] at h2
+  exact ⟨h2.2.1, fun k hk hm => h2.2.2 k hm k hk rfl⟩
+
 /-- a non-monotone step really can decrease a value: `MonotonicKeys` promises keys only -/
 theorem nonmonotone_fold_can_decrease :
     lookup (keyedAfter (0 : Int) (fun a v => a + v) [[(1, 5)]]) 1 = some 5 ∧
